@@ -609,7 +609,7 @@ func init() {
 		Rule:   "random operation histories (1..40 steps, thorough ..200) over {Push(part), Push(wrong-layout part), Reverse, Swap with a second tracked geometry, Clone-and-continue, SetLayout (collections), accessor sweep} on Polygon, MultiPoint, MultiLineString, MultiPolygon, GeometryCollection in XY..Layout(6); an executable list model is stepped in lock-step and the whole state (WF, flat/ends via FromGeom, Num*, every part accessor, Coords()) is compared after every operation; failed pushes must return ErrLayoutMismatch{Got,Want} and leave a bitwise-identical receiver; plus every MultiPolygon push history of length <=5 over {empty, 1-ring, 2-ring, all-empty-rings}. distinct_nontrivial = distinct (type, layout, empty/non-empty pattern of the first 8 pushes) with at least one non-empty part",
 		Assume: []string{"list model in mon/c02.go; WF monitor"},
 		Classes: []fw.Class{
-			{Name: "histories", Quick: 30000, Thorough: 1000000, Run: c02History},
+			{Name: "histories", Quick: 80000, Thorough: 1000000, Run: c02History},
 			{Name: "exhaustive-multipolygon", Quick: 1364, Thorough: 1364, Run: c02ExhMultiPolygon, Exhaustive: "every MultiPolygon Push history of length 1..5 over the alphabet {empty polygon, 1 ring, 2 rings, only empty rings}"},
 		},
 		Require: []string{"op_push", "op_push_wrong_layout", "op_reverse", "op_swap", "op_clone", "op_setlayout", "pushed_empty_part", "empty_part_accessed", "history_with_empty_part_before_nonempty", "exhaustive_histories"},
